@@ -870,6 +870,14 @@ func (g *gen) applyCall(val ssa.Value, c *ssa.CallCommon, full, short string, or
 		}
 	}
 	var names []string
+	if ct != nil && ct.Kind == "func" && g.fn != nil && g.fn.Pkg != nil && ct.Pkg != g.fn.Pkg.Pkg.Path() {
+		for _, sp := range g.w.prog.AllPackages() {
+			if sp.Pkg.Path() == ct.Pkg {
+				g.specPkg = sp.Pkg
+			}
+		}
+		defer func() { g.specPkg = nil }()
+	}
 	if ct != nil {
 		if ct.Kind == "extern" {
 			g.noteExtern(ct)
